@@ -13,4 +13,5 @@ globals().update(build('C01', 'Aggregates are invariant to how data is batched a
     'harness.agg.generated',   # translate/scalar.py: generated scalar definitions (self-check + theorems)
     'harness.agg.histories',   # reads interleaved with add / merge / merge_states on the same state objects (SC07)
     'harness.agg.conditioning',  # ill-conditioned float64 data vs exact rationals, derived tolerance (SC07)
+    'harness.agg.mergestates',   # ONE merge_states call over 0..9 states, every state read afterwards (SC11)
 ]))
